@@ -36,7 +36,10 @@ const (
 	ecdsa512 = 521
 )
 
-var ErrNoCertificatePresent = errors.New("no certificate present")
+var (
+	ErrNoCertificatePresent = errors.New("no certificate present")
+	ErrUnsupportedKey       = errors.New("unsupported key")
+)
 
 type Entry struct {
 	KeyID      string
@@ -64,6 +67,30 @@ func (e *Entry) JOSEAlgorithm() jose.SignatureAlgorithm {
 		return getECDSAAlgorithm(e.KeySize)
 	default:
 		panic("Unsupported algorithm: " + e.Alg)
+	}
+}
+
+// CheckJOSESupport tells whether JWK and JOSEAlgorithm can be used for this entry. Key material is read from
+// files, which may change while heimdall is running, so callers have to reject unsupported keys instead of
+// running into the panics of the functions above.
+func (e *Entry) CheckJOSESupport() error {
+	switch e.Alg {
+	case AlgRSA:
+		switch e.KeySize {
+		case rsa2048, rsa3072, rsa4096:
+			return nil
+		}
+
+		return fmt.Errorf("%w: RSA key size %d (key id %s)", ErrUnsupportedKey, e.KeySize, e.KeyID)
+	case AlgECDSA:
+		switch e.KeySize {
+		case ecdsa256, ecdsa384, ecdsa512:
+			return nil
+		}
+
+		return fmt.Errorf("%w: ECDSA key size %d (key id %s)", ErrUnsupportedKey, e.KeySize, e.KeyID)
+	default:
+		return fmt.Errorf("%w: algorithm %s (key id %s)", ErrUnsupportedKey, e.Alg, e.KeyID)
 	}
 }
 
